@@ -225,7 +225,8 @@ def handle : Handler := fun j => do
       let re : Json := match parseTime f with
         | .ok t' => Json.mkObj [("ok", timeD t')]
         | .error _ => Json.mkObj [("error", true)]
-      pure (Json.mkObj [("ok", timeD t), ("fmt", Json.str f), ("utc", timeD (toUTC t)), ("json", Json.str ("\"" ++ f ++ "\"")), ("reparse", re)])
+      pure (Json.mkObj [("ok", timeD t), ("fmt", Json.str f), ("utc", timeD (toUTC t)), ("json", Json.str ("\"" ++ f ++ "\"")), ("reparse", re),
+        ("unix", Json.arr #[Json.str (toString t.unixSec), toJson t.nanos])])
   | "sha" =>
     let h ← getStr j "hex"
     pure (Json.mkObj [("sha", Json.str (Sha256.hex (Sha256.sha256 (unhex h.toList))))])
